@@ -515,9 +515,10 @@ pub fn run(args: &Args) -> Report {
         ks: if thorough { vec![0, 1, 2] } else { vec![0, 1] },
         env: 0,
         fault: 1,
-        total_wall: Duration::from_secs(if thorough { 1800 } else { 40 }),
+        total_wall: Duration::from_secs(if thorough { 1800 } else { 55 }),
         max_execs_per_case: 20_000_000,
         required_witnesses: W_LATE_OPS | W_BUDGET_YIELD | W_FAULT_TAKEN | W_FAULT_WITH_BLOCKED_WRITER | W_FAULT_WITH_PENDING_OPEN | W_FAULT_WITH_PENDING_BIND | W_DROP_FLUSHED_DATA | W_BROKEN_PIPE | W_CLOSED_SEEN,
+        adaptive: thorough,
         witness_names: &[
             ("fault_injected", W_FAULT_TAKEN),
             ("fault_while_writer_blocked_on_credit", W_FAULT_WITH_BLOCKED_WRITER),
